@@ -51,42 +51,42 @@ type smtFn struct {
 }
 
 var contractSMTFns = map[string]smtFn{
-	"kind":        {[]string{"TypeTag"}, "Int", types.Typ[types.Int]},
-	"named":       {[]string{"TypeTag"}, "Bool", types.Typ[types.Bool]},
-	"comparable":  {[]string{"TypeTag"}, "Bool", types.Typ[types.Bool]},
-	"elemT":       {[]string{"TypeTag"}, "TypeTag", nil},
-	"keyT":        {[]string{"TypeTag"}, "TypeTag", nil},
-	"sliceOf":     {[]string{"TypeTag"}, "TypeTag", nil},
-	"convertible": {[]string{"TypeTag", "TypeTag"}, "Bool", types.Typ[types.Bool]},
-	"assignable":  {[]string{"TypeTag", "TypeTag"}, "Bool", types.Typ[types.Bool]},
-	"rv_of":       {[]string{"Iface"}, "RV", nil},
-	"rv_iface":    {[]string{"RV"}, "Iface", nil},
-	"rv_valid":    {[]string{"RV"}, "Bool", types.Typ[types.Bool]},
-	"rv_type":     {[]string{"RV"}, "TypeTag", nil},
-	"rv_len":      {[]string{"RV"}, "Int", types.Typ[types.Int]},
-	"rv_index":    {[]string{"RV", "Int"}, "RV", nil},
-	"rv_mapval":   {[]string{"RV", "Iface"}, "RV", nil},
-	"rv_key":      {[]string{"RV", "Int"}, "RV", nil},
-	"t_numin":     {[]string{"TypeTag"}, "Int", types.Typ[types.Int]},
-	"t_numout":    {[]string{"TypeTag"}, "Int", types.Typ[types.Int]},
-	"t_in":        {[]string{"TypeTag", "Int"}, "TypeTag", nil},
-	"t_out":       {[]string{"TypeTag", "Int"}, "TypeTag", nil},
-	"rv_convert":  {[]string{"RV", "TypeTag"}, "RV", nil},
-	"rv_indirect": {[]string{"RV"}, "RV", nil},
-	"rv_field":    {[]string{"RV", "Str"}, "RV", nil},
-	"rv_method":   {[]string{"RV", "Str"}, "RV", nil},
-	"rv_isnil":    {[]string{"RV"}, "Bool", types.Typ[types.Bool]},
-	"rv_elem":     {[]string{"RV"}, "RV", nil},
-	"rv_iskey":    {[]string{"RV", "RV"}, "Bool", types.Typ[types.Bool]},
-	"birth":       {[]string{"Ref"}, "Int", types.Typ[types.Int]},
-	"strlen":      {[]string{"Str"}, "Int", types.Typ[types.Int]},
-	"strcat":      {[]string{"Str", "Str"}, "Str", types.Typ[types.String]},
-	"re_match":    {[]string{"Ref", "Str"}, "Bool", types.Typ[types.Bool]},
-	"parseint_ok": {[]string{"Str"}, "Bool", types.Typ[types.Bool]},
-	"parseint_val": {[]string{"Str"}, "Int", types.Typ[types.Int64]},
-	"parsefloat_ok": {[]string{"Str"}, "Bool", types.Typ[types.Bool]},
+	"kind":           {[]string{"TypeTag"}, "Int", types.Typ[types.Int]},
+	"named":          {[]string{"TypeTag"}, "Bool", types.Typ[types.Bool]},
+	"comparable":     {[]string{"TypeTag"}, "Bool", types.Typ[types.Bool]},
+	"elemT":          {[]string{"TypeTag"}, "TypeTag", nil},
+	"keyT":           {[]string{"TypeTag"}, "TypeTag", nil},
+	"sliceOf":        {[]string{"TypeTag"}, "TypeTag", nil},
+	"convertible":    {[]string{"TypeTag", "TypeTag"}, "Bool", types.Typ[types.Bool]},
+	"assignable":     {[]string{"TypeTag", "TypeTag"}, "Bool", types.Typ[types.Bool]},
+	"rv_of":          {[]string{"Iface"}, "RV", nil},
+	"rv_iface":       {[]string{"RV"}, "Iface", nil},
+	"rv_valid":       {[]string{"RV"}, "Bool", types.Typ[types.Bool]},
+	"rv_type":        {[]string{"RV"}, "TypeTag", nil},
+	"rv_len":         {[]string{"RV"}, "Int", types.Typ[types.Int]},
+	"rv_index":       {[]string{"RV", "Int"}, "RV", nil},
+	"rv_mapval":      {[]string{"RV", "Iface"}, "RV", nil},
+	"rv_key":         {[]string{"RV", "Int"}, "RV", nil},
+	"t_numin":        {[]string{"TypeTag"}, "Int", types.Typ[types.Int]},
+	"t_numout":       {[]string{"TypeTag"}, "Int", types.Typ[types.Int]},
+	"t_in":           {[]string{"TypeTag", "Int"}, "TypeTag", nil},
+	"t_out":          {[]string{"TypeTag", "Int"}, "TypeTag", nil},
+	"rv_convert":     {[]string{"RV", "TypeTag"}, "RV", nil},
+	"rv_indirect":    {[]string{"RV"}, "RV", nil},
+	"rv_field":       {[]string{"RV", "Str"}, "RV", nil},
+	"rv_method":      {[]string{"RV", "Str"}, "RV", nil},
+	"rv_isnil":       {[]string{"RV"}, "Bool", types.Typ[types.Bool]},
+	"rv_elem":        {[]string{"RV"}, "RV", nil},
+	"rv_iskey":       {[]string{"RV", "RV"}, "Bool", types.Typ[types.Bool]},
+	"birth":          {[]string{"Ref"}, "Int", types.Typ[types.Int]},
+	"strlen":         {[]string{"Str"}, "Int", types.Typ[types.Int]},
+	"strcat":         {[]string{"Str", "Str"}, "Str", types.Typ[types.String]},
+	"re_match":       {[]string{"Ref", "Str"}, "Bool", types.Typ[types.Bool]},
+	"parseint_ok":    {[]string{"Str"}, "Bool", types.Typ[types.Bool]},
+	"parseint_val":   {[]string{"Str"}, "Int", types.Typ[types.Int64]},
+	"parsefloat_ok":  {[]string{"Str"}, "Bool", types.Typ[types.Bool]},
 	"parsefloat_val": {[]string{"Str"}, F64, types.Typ[types.Float64]},
-	"str_tolower": {[]string{"Str"}, "Str", types.Typ[types.String]},
+	"str_tolower":    {[]string{"Str"}, "Str", types.Typ[types.String]},
 }
 
 var kindNames = map[string]int{"Invalid": 0, "Bool": 1, "Int": 2, "Int8": 3, "Int16": 4, "Int32": 5, "Int64": 6, "Uint": 7, "Uint8": 8, "Uint16": 9,
@@ -571,6 +571,16 @@ func (fr *Frame) evalCall(e *Expr, env *Env, st *State, old *State) *Val {
 			evalFail("rtag needs a reflect.Type value")
 		}
 		return sv(u.tagOfRtype(x.T), "TypeTag")
+	case "strings_Contains", "strings_HasPrefix", "strings_HasSuffix":
+		nm := strings.Replace(e.name, "_", ".", 1)
+		fnm := quote("fn:" + nm)
+		w.declFun(fnm, []string{"Str", "Str"}, "Bool")
+		return term(app(fnm, arg(0).T, arg(1).T), B)
+	case "strings_TrimSpace", "strings_ToUpper":
+		nm := strings.Replace(e.name, "_", ".", 1)
+		fnm := quote("fn:" + nm)
+		w.declFun(fnm, []string{"Str"}, "Str")
+		return term(app(fnm, arg(0).T), types.Typ[types.String])
 	case "refof":
 		return sv(fr.refOf(arg(0)), "Ref")
 	case "any":
